@@ -1,6 +1,7 @@
 package avltree
 
 import (
+	"github.com/emirpasic/gods/v2/maps"
 	"strings"
 	"encoding/json"
 	"github.com/emirpasic/gods/v2/containers"
@@ -161,7 +162,7 @@ func vCheck(cell **Node[int, int], parent *Node[int, int], hasLo bool, lo int, h
 	}
 	hl, sl := vCheck(&n.Children[0], n, hasLo, lo, true, n.Key, depth+1)
 	hr, sr := vCheck(&n.Children[1], n, true, n.Key, hasHi, hi, depth+1)
-	v.Assert(v.And(hr-hl <= 1, hl-hr <= 1), "C01,C07:sibling-heights-differ-by-at-most-one")
+	v.Assert(v.And(hr-hl <= 1, hl-hr <= 1), "C01,C07:inv-sibling-heights-differ-by-at-most-one")
 	v.Assert(int(n.b) == hr-hl, "C01,C07:inv-balance-factor")
 	return 1 + v.Ite(hl >= hr, hl, hr), 1 + sl + sr
 }
@@ -428,4 +429,10 @@ func VHString() {
 	s := c.String()
 	v.EndOp()
 	v.Assert(strings.HasPrefix(s, "AVLTree"), "C15:string-begins-with-container-name")
+}
+
+// VHHistory: D operations in a row from the constructor (see VMapHistory).
+func VHHistory() {
+	t := NewWith[int, int](vl.Cmp)
+	maps.VMapHistory(t, maps.VKind{Name: "AVLTree", SortedKeys: true, Inv: func() { VInv(t) }})
 }
